@@ -612,6 +612,17 @@ func c04LongRun(w *mon.W, _ int) {
 			}
 		}
 		bms = append(bms, bm)
+		if len(bm) >= 2 { // a shorter bitmap of the same tree right before the complete one
+			cut := 1 + r.Intn(len(bm)-1)
+			var expS []uint64
+			for i, p := range list {
+				if i < 64*cut && bitAt(bm, i) == 1 {
+					expS = append(expS, p)
+				}
+			}
+			short := bm[:cut:cut]
+			calls = append(calls, lrCall{"Decode", fmt.Sprintf("Decode(%#b, first %d of %d words)", mask, cut, len(bm)), func() uint64 { return gen.HashWords(bmtree.Decode(int32(mask), short)) }, func() uint64 { return gen.HashWords(append([]uint64{}, expS...)) }})
+		}
 		calls = append(calls, lrCall{"Decode", fmt.Sprintf("Decode(%#b, %d words)", mask, len(bm)), func() uint64 { return gen.HashWords(bmtree.Decode(int32(mask), bm)) }, func() uint64 { return gen.HashWords(append([]uint64{}, exp...)) }})
 	}
 	longRun(w, calls, lrDigestW(bms), "bmtree")
@@ -930,6 +941,23 @@ func c16LongRun(w *mon.W, _ int) {
 		for q := 0; q < 14; q++ {
 			s := r.Intn(n - 3)
 			calls = append(calls, query("CountPrefixes(one long-lived SigBits)", sb, len(lists)-1, l, fd, s, s+2+r.Intn(2), r.Pick(16, 16, 20, 64, 8, 1)))
+		}
+	}
+	// a third object, over 1500 keys, whose FIRST queries move from left to right with growing right ends (whatever the
+	// object computes lazily is then extended call by call; a watermark that skipped the pair at the previous right end
+	// was seeded); later the same queries come in any order
+	{
+		var raw []string
+		for len(raw) < 1500 {
+			raw = append(raw, gen.KeyZoo(r, 64, 9)...)
+		}
+		l := gen.SortedUnique(raw)
+		lists = append(lists, l)
+		fd := fdOf(l)
+		sb := sigbits.New(l)
+		n := len(l)
+		for _, q := range [][2]int{{0, 10}, {5, n / 8}, {n/8 - 3, n / 3}, {n/3 - 1, n / 2}, {n / 4, n/2 + 7}, {n/2 + 6, n - 100}, {n - 120, n}, {0, n}} {
+			calls = append(calls, query("CountPrefixes(object queried left to right first)", sb, len(lists)-1, l, fd, q[0], q[1], r.Pick(8, 16, 20)))
 		}
 	}
 	longRun(w, calls, func() uint64 {
